@@ -183,6 +183,9 @@ def directed(rng):
         # a push whose Send fails, issued with a context that can never end: nothing of it may outlive the server
         add('cb-noctx-sendfail-%d' % v, P, [dict(a='sendfail'), dict(a='callback', c='cbA', noctx=True), dict(a='notify'), D, [dict(a='stop'), dict(a='peerclose'), dict(a='recverr')][v], D])
         add('cb-noctx-sendfail-reply-%d' % v, P, [S(call(1)), D, dict(a='sendfail'), dict(a='callback', c='cbA', noctx=True), D, S(reply(1, v)), D, hret('m1.1'), D, dict(a='stop'), D])
+        # pushes issued with a context that has already ended: Notify transmits all the same, Callback transmits and then reports the context's error
+        add('push-ended-ctx-%d' % v, P, [S(call(1)), D, dict(a='endedpush'), dict(a='notify'), dict(a='callback', c='cbA'), D, dict(a='notify', **({'from': 'm1.1'} if v else {})), dict(a='callback', c='cbB'), D,
+                                         S(reply(1, v)), D, hret('m1.1'), D])
         add('cb-noctx-reply-%d' % v, P, [dict(a='callback', c='cbA', noctx=True), D, S(reply(1, v)), D, dict(a='callback', c='cbB', noctx=True), D, dict(a='recverr'), D])
         add('cb-mixed-%d' % v, P, [dict(a='callback', c='cbA'), D, S(reply(1, v), call(1)), D, hret('m1.2'), D])
         add('nopush-%d' % v, {}, [dict(a='callback', c='cbA'), dict(a='notify'), D, S(reply(1, v)), D])
